@@ -87,6 +87,7 @@ type Stats struct {
 	PathsViol     int
 	PathsKnown    int
 	PathsPruned   int
+	CacheHits     int
 	Decisions     int
 	Asserts       int
 	AssertsSolver int
@@ -113,7 +114,8 @@ type Explorer struct {
 	MaxVectors  int
 	Params   map[string]int
 
-	work []workItem
+	work   []workItem
+	qcache map[string]qres
 
 	// per-path state
 	prefix   []Decision
@@ -192,11 +194,55 @@ func (ex *Explorer) noteInput(t *Term) {
 	}
 }
 
-// query decides pc ∧ extra, returning a model on sat.
+// query decides pc ∧ extra, returning a model on sat. Results are cached by the set of
+// asserted terms (terms are hash-consed, so re-executed paths and different schedules with
+// the same data constraints hit the cache).
 func (ex *Explorer) query(extra ...*Term) (SatResult, *Model) {
 	as := make([]*Term, 0, len(ex.pc)+len(extra))
 	as = append(as, ex.pc...)
 	as = append(as, extra...)
+	ids := make([]int, 0, len(as))
+	seenID := map[int]bool{}
+	for _, a := range as {
+		if a == tTrue || seenID[a.ID] {
+			continue
+		}
+		seenID[a.ID] = true
+		ids = append(ids, a.ID)
+	}
+	sort.Ints(ids)
+	var kb strings.Builder
+	for _, id := range ids {
+		fmt.Fprintf(&kb, "%d,", id)
+	}
+	key := kb.String()
+	if ex.qcache == nil {
+		ex.qcache = map[string]qres{}
+	}
+	if c, ok := ex.qcache[key]; ok {
+		ex.Stats.CacheHits++
+		if c.m != nil {
+			return c.res, c.m.Clone()
+		}
+		return c.res, nil
+	}
+	res, m := ex.queryUncached(as)
+	if res != Unknown {
+		var mc *Model
+		if m != nil {
+			mc = m.Clone()
+		}
+		ex.qcache[key] = qres{res, mc}
+	}
+	return res, m
+}
+
+type qres struct {
+	res SatResult
+	m   *Model
+}
+
+func (ex *Explorer) queryUncached(as []*Term) (SatResult, *Model) {
 	// collect UF applications among inputs too
 	want := ex.inputs
 	s := ex.Solver
